@@ -479,6 +479,9 @@ func runC07(c *Ctx) {
 	// jump target, so a code/hash pair that does not match makes a later frame index another code's bitmap (out of
 	// range panic, or a jump into push data). The pairing and cache-key rules are C08's, shared here.
 	c.Borrow("C08", runC08, map[string]string{"C08-R6": "C07-R13"})
+	// "a failed contract creation additionally keeps its creator's nonce increment": the increment lies on every path
+	// of Create past the depth and balance checks and precedes the snapshot (C06-R2), shared here
+	c.Borrow("C06", runC06, map[string]string{"C06-R2": "C07-R14"})
 }
 
 // c07UnguardedPositions: stack positions (0 = top at entry) whose value is converted by Uint64()/Int64() (or handed to
